@@ -11,7 +11,7 @@ import random
 import subprocess
 import tempfile
 
-from pv import env, gen, monitors, rebuild, strict, interp
+from pv import env, gen, monitors, rebuild, routes, strict, interp
 from pv.checks import common
 from pv.runner import case_rng
 
@@ -372,6 +372,24 @@ def judge(ctx, idx, case):
         compare(ctx, "preserving.observed_build_vs_duplicates", watched, dup, problems)
     except pm.ProvException:
         pass
+    # "unaffected by the path by which a document was built": the same statements through other entry points of the API
+    # (convenience method / factory / new_record, alias, keyword arguments, dict-form attributes, a formal argument stated as an
+    # attribute).  The twin must be content-equivalent *and* ==.
+    first = interp.run(case["ops"])
+    for n in range(2):
+        tops, changed = routes.route_twin(case["ops"], r)
+        tw = interp.run(tops, style_xor=r.choice([0, 1, 2, 4, 7]))
+        if [o.split(":")[0] for o in tw.outcomes] != [o.split(":")[0] for o in first.outcomes]:
+            ctx.count("route_twin.not_comparable(outcomes differ)")
+            continue
+        for c in changed:
+            ctx.count("route_twin.%s" % c)
+        ctx.count("route_twin.judged")
+        eq = compare(ctx, "preserving.route_twin", d, tw.doc, problems)
+        if not eq:
+            problems.append({"pair": "preserving.route_twin", "problem": "the same statements made through another route of the API (%s) build different content"
+                             % ", ".join(sorted(set(changed))), "diff": strict.diff(strict.strict(d), strict.strict(tw.doc), 4)})
+        compare_records(ctx, d, tw.doc, r, problems)
     for kind in case["preserving"]:
         try:
             v = variant_preserving(kind, od, d, r)
